@@ -383,6 +383,31 @@ def run(pid, tier, seed, replay=None):
             if s["sid"] in rej:
                 t = rej[s["sid"]]
                 violations.append(dict(session=meta[s["sid"]], rejected_at_event=t[2], event=t[3], clause=t[4]))
+    # ---- C10 on operator-valued (second-quantised) computations: three request histories ------------
+    sq_stage = None
+    if pid == "C10" and replay is None:
+        from . import core_nof, sq_history
+
+        n_sq = 6 if quick else 40
+        fs = []
+        for q in range(n_sq):
+            try:
+                fs.append(sq_history.build_session(2000 + q, seed))
+            except Exception as e:  # noqa: BLE001
+                violations.append(dict(session=dict(kind="second-quantised-history", q=q), clause="exception",
+                                       error=f"{type(e).__name__}: {e}"))
+        if fs:
+            fres, fdone, ffails = core_nof.validate([x[0] for x in fs])
+            stats["states"] += fres.distinct
+            stats["transitions"] += fres.generated
+            for ses_, meta_ in fs:
+                if ffails.get(ses_["sid"]):
+                    violations.append(dict(session=meta_, clause="C10.value_depends_on_request_history",
+                                           failing=[(c, ln, meta_["order"][(ln - 1) // 2], ["forward", "reverse"][(ln - 1) % 2])
+                                                    for c, ln in sorted(ffails[ses_["sid"]])][:8]))
+        sq_stage = dict(sessions=len(fs), rule="three histories of one operator-valued computation (forward order, reverse order, "
+                        "each element alone in a fresh computation); TLC (Trace_Fock, `eq`) decides that the elements denote "
+                        "the same operator on a Fock window")
     if sessions and not samples:
         s0 = sessions[0]
         samples.append(dict(session=meta[s0["sid"]], events=len(s0["ev"]),
@@ -414,7 +439,7 @@ def run(pid, tier, seed, replay=None):
         session_kinds=kinds, input_kinds=dict(collections.Counter(m["opts"].get("input_kind", "lazy") for m in meta.values())),
         fault_points_by_callback=dict(collections.Counter(
             e["what"].split(",")[0].strip("('\"") for s in sessions for e in s["ev"] if e["t"] == "inject")),
-        mode_a=mode_a, sessions_skipped_nonfinite_truth=len(skipped), undisturbed_runs_validated_by_LeastAction=truth_checked,
+        mode_a=mode_a, second_quantised_history_stage=sq_stage, sessions_skipped_nonfinite_truth=len(skipped), undisturbed_runs_validated_by_LeastAction=truth_checked,
         negative_controls=control, exhaustive=False,
     )
     common.write_evidence(pid, tier, seed, coverage, time.time() - t0, len(violations),
